@@ -35,6 +35,8 @@ def norm(s):
         return ('union', out)
     if s[0] in ('arr', 'set'):
         return (s[0], norm(s[1]))
+    if s[0] == 'object':
+        return ('object', [(k, norm(v)) for k, v in s[1]])
     if s[0] == 'rec':
         return ('rec', norm(s[1]), norm(s[2]))
     if s[0] == 'tup':
@@ -47,8 +49,16 @@ def shape_eq(a, b):
     if a[0] != b[0]:
         return False
     k = a[0]
-    if k in ('str', 'num', 'bool', 'unit', 'null', 'unknown'):
+    if k in ('str', 'num', 'bool', 'unit', 'null', 'unknown', 'undef'):
         return True
+    if k == 'object':
+        if len(a[1]) != len(b[1]):
+            return False
+        return z_and(*[z_and(V.str_eq(x[0], y[0]), shape_eq(x[1], y[1])) for x, y in zip(a[1], b[1])])
+    if k == 'enum':
+        if len(a[1]) != len(b[1]):
+            return False
+        return z_and(*[V.str_eq(x, y) for x, y in zip(a[1], b[1])])
     if k in ('arr', 'set'):
         return shape_eq(a[1], b[1])
     if k == 'rec':
@@ -81,6 +91,8 @@ def show(s, model=None):
         return 'ref(%s)' % (PL.concretize_str(model, s[1]) if model is not None or s[1].is_concrete() else '<sym>')
     if k == 'other':
         return 'other(%s)' % s[1]
+    if k == 'object':
+        return 'object'
     return k
 
 
